@@ -1202,7 +1202,13 @@ func (ro *RedisOutput) sendCmdsBatch(replayWait usync.WaitCloser, conn client.Re
 				delayNs:    delayNs,
 			}:
 			case <-replayWait.Context().Done():
-				return replayWait.Error()
+				// the batch has been dispatched but nobody will receive it : this is a failure even when the
+				// closer has not recorded its error yet (a nil here would read as success, keep the queue and
+				// dispatch the same batch again with the next flush)
+				if err := replayWait.Error(); err != nil {
+					return err
+				}
+				return replayWait.Context().Err()
 			}
 		} else {
 			if delayNs > 0 {
